@@ -208,7 +208,7 @@ PROPS = {
         partial=["freshness / unpredictability of salts (crypto/rand) is observed (pairwise distinct within a run), not proved"],
     ),
     "C17": dict(
-        modules=["Whawty.Props.C17"],
+        modules=["Whawty.Props.C17", "Whawty.Props.GenPolicyCond"],
         suites=[("overlay", "v17")],
         level_text="The policy gate in front of init/add/update is modelled with the zxcvbn estimate as a parameter: "
                    "store_change_implies_policy, refusal_changes_nothing, policy_ok_not_refused; condition_parser_exact "
